@@ -25,7 +25,10 @@ WS = " \t\r\n"
 OPS = {"+": ("+", "Plus"), "-": ("-", "Minus"), "–": ("-", "Minus"), "*": ("*", "Multiply"),
        "/": ("/", "Divide"), "^": ("^", "Exponent"), "!": ("!", "Factorial"), "(": ("(", "OpenParen"),
        "[": ("(", "OpenParen"), ")": (")", "CloseParen"), "]": (")", "CloseParen"), "=": ("=", "Equal")}
-EXTRA = ["–", "٣", "Ａ", "é", "²", "−", "×"]
+# code points outside Latin-1 that case mapping, isalpha()/isdigit() or NFKC-like reasoning could let through:
+# en dash (supported), Arabic-Indic digit, full-width A and 1, minus sign, Kelvin sign (lower() is 'k'), long s (upper()
+# is 'S'), dotless i (upper() is 'I'), Greek alpha, Roman numeral one
+EXTRA = ["–", "٣", "Ａ", "é", "²", "−", "×", "\u212a", "\u017f", "\u0131", "\uff11", "\u03b1", "\u2160"]
 
 
 def universe() -> frozenset:
@@ -93,7 +96,7 @@ def representatives(cur: frozenset, full: frozenset) -> List[str]:
         if inter:
             extra += [inter[0], inter[-1]]
     uns = sorted(ch for ch in cur if spec_class(ch) == "unsupported")
-    for probe in ("/", ":", "@", "[", "`", "{", "é", "Ａ", "٣", "²"):
+    for probe in ("/", ":", "@", "[", "`", "{", "é", "Ａ", "٣", "²", "\u212a", "\u017f", "\u0131", "\uff11", "\u03b1", "\u2160"):
         if probe in cur:
             extra.append(probe)
     return sorted(set(list(by.values()) + extra + uns[:2]))
@@ -212,7 +215,7 @@ def run(chk: Check) -> None:
     L = 2 if chk.tier == "quick" else 3
     chk.explanation = (
         f"Decides: Tokenizer.tokenize, interpreted from source on symbolic strings of length 0..{L} over an alphabet of "
-        f"{len(U)} code points (all of Latin-1 plus en dash, Arabic digit, full-width A, minus sign, multiplication sign) and of "
+        f"{len(U)} code points (all of Latin-1 plus en dash, Arabic-Indic digit, full-width A and 1, minus sign, multiplication sign, Kelvin sign, long s, dotless i, Greek alpha, Roman numeral one) and of "
         "length 3..4 over a reduced alphabet that contains the letters of the registered function name, agrees on "
         "every path and in both padding modes with the specification tokenizer of the property statement: values "
         "concatenate to the input up to the three normalisations (padding only dropped on request), digit/dot runs are "
